@@ -3,6 +3,7 @@
 //! data revealed after the query positions were fixed is substituted *consistently with every
 //! algebraic check*, so that only the comparison with the earlier commitment can catch it:
 //!   remainder  : r' = r + c * prod(x - x_i) over the last-layer points of the folded query positions
+//!                (variant 1: the shorter interpolant through the queried points, zero-padded to a power of two)
 //!                (same degree bound, same values at every queried point);
 //!   trace      : two opened main-trace values at one position changed by (d_a, d_b) with
 //!                cc_a*d_a + cc_b*d_b = 0 (the DEEP value, hence everything FRI sees, is unchanged);
@@ -374,12 +375,31 @@ where
             }
             let mut f = split_fri(&forged.fri_proof);
             let rem: Vec<E> = (0..f.remainder.len() / E::ELEMENT_BYTES).map(|i| get::<E>(&f.remainder, i)).collect();
-            if pos.len() + 1 > rem.len() {
-                return skip("remainder too short for the number of folded positions");
-            }
             let g = B::get_root_of_unity(size.ilog2());
             let offset = B::GENERATOR;
             let xs: Vec<E> = pos.iter().map(|&p| E::from(offset * g.exp((p as u64).into()))).collect();
+            let horner = |p: &[E], x: E| p.iter().fold(E::ZERO, |acc, c| acc * x + *c);
+            if variant == 1 {
+                // a SHORTER remainder than the committed one: the interpolant through the queried points of
+                // the committed remainder, zero-padded to the next admissible (power-of-two) length
+                let short_len = pos.len().next_power_of_two();
+                if short_len >= rem.len() {
+                    return skip("no shorter remainder length for this number of folded positions");
+                }
+                let ys: Vec<E> = xs.iter().map(|x| horner(&rem, *x)).collect();
+                let mut low = polynom::interpolate(&xs, &ys, false); // low -> high, degree < #positions
+                low.resize(short_len, E::ZERO);
+                let newrem: Vec<E> = low.into_iter().rev().collect();
+                remainder_consistent = xs.iter().all(|x| horner(&newrem, *x) == horner(&rem, *x));
+                f.remainder = vec![0u8; newrem.len() * E::ELEMENT_BYTES];
+                for (i, v) in newrem.iter().enumerate() {
+                    put::<E>(&mut f.remainder, i, *v);
+                }
+                forged.fri_proof = join_fri(&f);
+            } else {
+            if pos.len() + 1 > rem.len() {
+                return skip("remainder too short for the number of folded positions");
+            }
             let m = polynom::poly_from_roots(&xs); // low -> high, degree = #positions
             // remainder coefficients are stored highest degree first
             let mut newrem = rem.clone();
@@ -389,7 +409,6 @@ where
             }
             // the substitute must agree with the committed remainder at every queried point and keep
             // its length (degree bound), otherwise it would be caught by the algebraic checks
-            let horner = |p: &[E], x: E| p.iter().fold(E::ZERO, |acc, c| acc * x + *c);
             remainder_consistent = newrem.len() == rem.len()
                 && newrem != rem
                 && xs.iter().all(|x| horner(&newrem, *x) == horner(&rem, *x));
@@ -397,6 +416,7 @@ where
                 put::<E>(&mut f.remainder, i, *v);
             }
             forged.fri_proof = join_fri(&f);
+            }
         },
         "fri_layer" => {
             let fold = case.opts.fold;
